@@ -187,6 +187,9 @@ func (E *Engine) encodeOnce(key string, preset map[string]string, presetTypes []
 			// the ghost result has the callee's result type even if no call site matches
 			if cf := E.L.Funcs[cs.Callee]; cf != nil && cf.Signature.Results().Len() == 1 {
 				f.ghostRetTypes[k] = cf.Signature.Results().At(0).Type()
+			} else if cf != nil && cf.Signature.Results().Len() > 1 {
+				// a multi-valued callee: the components are visible as name_0, name_1, ...
+				f.ghostRetTypes[k] = cf.Signature.Results()
 			} else if rt := E.libResultType(cs.Callee); rt != nil {
 				f.ghostRetTypes[k] = rt
 			} else {
@@ -643,18 +646,7 @@ func (f *frame) postconditions() {
 				res = SV{tuple: r.vals}
 			}
 			bindResults(extra, f.fn, res)
-			for k, cs := range fc.Calls {
-				if cs.As == "" {
-					continue
-				}
-				if t, ok := f.ghostRetTypes[k]; ok {
-					term, ok2 := r.heap[ghostRetKey(k)]
-					if !ok2 {
-						term = e.zeroValue(t)
-					}
-					extra[cs.As] = SV{t: t, term: term}
-				}
-			}
+			f.ghostBind(extra, r.heap)
 			save := f.curPC
 			f.curPC = r.pc
 			c := f.evalContractMode(en, r.heap, extra, nil, "oblige")
